@@ -153,6 +153,17 @@ def gen_patchset(rng, ws, *, dup=None):
     elif dup == "values" and npatch >= 2:
         i, j = rng.sample(range(npatch), 2)
         patches[j]["metadata"]["values"] = list(patches[i]["metadata"]["values"])
+    elif dup == "verbatim" and npatch >= 1:
+        # one patch listed twice word for word (name, values, operations): still two patches with one name
+        i = rng.randrange(npatch)
+        twin = copy.deepcopy(patches[i])
+        if rng.random() < 0.4 and all(isinstance(x, int) for x in twin["metadata"]["values"]):
+            twin["metadata"]["values"] = [float(x) for x in twin["metadata"]["values"]]   # numerically the same tuple
+        patches.insert(rng.randrange(len(patches) + 1), twin)
+    elif dup == "both" and npatch >= 2:
+        i, j = rng.sample(range(npatch), 2)
+        patches[j]["metadata"]["name"] = patches[i]["metadata"]["name"]
+        patches[j]["metadata"]["values"] = list(patches[i]["metadata"]["values"])
     elif dup is not None:
         dup = None
     algs = rng.choice([["sha256"], ["md5"], ["sha256", "md5"], ["md5", "sha256"]])
